@@ -384,3 +384,15 @@ def pmap(func, items, procs=None, chunksize=4):
     ctx = mp.get_context("fork")
     with ctx.Pool(procs or min(NCPU, 12)) as pool:
         return pool.map(func, items, chunksize=chunksize)
+
+
+def probe_fail(rejects, msg):
+    """A probe (corrupted copy of a trace recorded from the code) was accepted by P.  On a tree whose own traces P accepts this
+    means P or the trace module lost its grip: machinery failure.  On a tree whose own traces P REJECTS the probes are corrupted copies
+    of wrong traces and a corruption can repair one (a crop that keeps one pose too many, minus its first id) - then the rejections
+    are what has to be reported, and the probe outcome says nothing."""
+    real = [r for r in rejects if not str(r[0]).startswith("probe")]
+    if real:
+        print("NOTE probes not decisive on this tree (%d of the code's own traces are rejected by P): %s" % (len(real), msg))
+        return
+    raise MachineryError(msg)
